@@ -54,11 +54,14 @@ class Names:
 
 
 def rd(sel, cur, n: int) -> int:
+    """Read one selector and return it as a CONCRETE int (the solver forks once per value here, so everything
+    downstream of the decoder runs on concrete shape indices)."""
     v = sel[cur.pos]
     cur.pos += 1
-    if not (0 <= v < n):
-        raise OutOfRange
-    return v
+    for i in range(n):
+        if v == i:
+            return i
+    raise OutOfRange
 
 
 class Cur:
@@ -94,7 +97,7 @@ def type_shape(k: int, cls_ref: NamedType | None = None):
 
 
 # ----------------------------------------------------------------------------------------------------------- functions
-N_FUN_SHAPES = 12
+N_FUN_SHAPES = 13
 
 
 def build_function(api, owner, shape: int, names: Names, *, method_kind: int = 0, docs: bool = False,
@@ -169,6 +172,10 @@ def build_function(api, owner, shape: int, names: Names, *, method_kind: int = 0
         p(kind=PA.POSITIONAL_VARARG)  # untyped *args
         r(DictType(STR, ANY))
         examples.append(">>> f(1)\n... # more\n2")
+    elif shape == 12:
+        p(type_=UnionType([STR, NONE]), kind=PA.POSITION_ONLY, optional=True, default=None)
+        p(type_=INT, kind=PA.NAME_ONLY, optional=True, default=-3)
+        r(INT)
     doc = f"Doc of {fname}.\n\nSecond paragraph." if docs else ""
     if fname == "__init__":
         results, result_docs = [], []
